@@ -338,6 +338,8 @@ def run(ctx):
                     ctx.violation("U6-PROGRESS", b.path, "literal-index", "SurfaceMutIter constructed with a non-zero index", sites=["%s:%d" % (b.file, s["line"])])
     if n_lit == 0:
         ctx.anchor("U6-PROGRESS", "SurfaceMutIter-literal")
+    if ctx.tier == "thorough":
+        thorough(ctx)
 
 
 def _debug_only(body, t):
@@ -361,6 +363,11 @@ def _debug_only(body, t):
             continue
         return False
     return False
+
+
+def thorough(ctx):
+    from .. import witness
+    witness.run(ctx, "WITNESS")
 
 
 def expr_rv(body, s):
